@@ -120,7 +120,8 @@ def _read_masses(lit: LineIterator, result: dict[str]) -> NDArray[float]:
 
 @document_load_one(
     "PUNCH",
-    ["title", "energy", "g_rot", "atgradient", "athessian", "atmasses", "atnums", "atcoords"],
+    ["title", "g_rot"],
+    ["energy", "atgradient", "athessian", "atmasses", "atnums", "atcoords"],
 )
 def load_one(lit: LineIterator) -> dict[str]:
     """Do not edit this docstring. It will be overwritten."""
